@@ -131,11 +131,14 @@ namespace {
         constexpr ex::empty_env get_env() const& noexcept { return {}; }
     };
 
+    pika::threads::detail::thread_pool_base* g_pool = nullptr;    // bulk runs on this pool (nullptr: the default pool)
+
     template <typename I>
     void run_shape(RunCtx& ctx, int pred_kind, int hint, int prio)
     {
         using tp = pika::execution::thread_priority;
-        auto sched = ex::with_priority(ex::thread_pool_scheduler{}, prio == 1 ? tp::high : tp::normal);
+        auto sched = ex::with_priority(g_pool ? ex::thread_pool_scheduler{g_pool} : ex::thread_pool_scheduler{},
+            prio == 1 ? tp::high : tp::normal);
         auto s2 = hint >= 0 ? ex::with_hint(sched, pika::execution::thread_schedule_hint((std::int16_t) hint)) : sched;
         I n = (I) S.n;
         auto f = [](I i, int64_t& a, MoveOnly& b) { f_body(i, a, b.v); };
@@ -173,7 +176,10 @@ namespace {
     {
         Rng r(mix_seed(ctx.seed, 1100));
         pk::draw_runtime(ctx, 8);
-        int w = pk::workers(ctx);
+        // one run in three: bulk runs on a second pool created through the resource partitioner (its workers' global
+        // thread numbers differ from their pool-local numbers)
+        int const extra = (int) ctx.params.set("c11.second_pool_threads", r.chance(1, 3) ? r.range(1, 4) : 0);
+        int w = extra ? extra : pk::workers(ctx);
         if (!ctx.program_from_replay)
         {
             // op0 = [n, shape type, predecessor kind, hint, prio, yield index]; further ops = throwing indices
@@ -218,7 +224,17 @@ namespace {
             return pk::dump() + sfmt(" | bulk: n=%lld calls=%d active=%d signals v%d e%d s%d", (long long) S.n, done, S.active, S.nvalue,
                 S.nerror, S.nstopped);
         };
-        pk::start(ctx);
+        if (extra)
+        {
+            int pol = (int) ctx.params.set("c11.second_pool_policy", (int64_t) r.below(8));
+            pk::start_with_pools(ctx, {pk::PoolSpec{"bulk", pol, extra, -1}});
+            g_pool = &pika::resource::get_thread_pool("bulk");
+            VH_CHECK((int) g_pool->get_os_thread_count() == extra, "C11.harness", "second pool has %d threads, wanted %d",
+                (int) g_pool->get_os_thread_count(), extra);
+            probe("bulk.on_second_pool");
+        }
+        else
+            pk::start(ctx);
         int pred = (int) (((hdr.v[2] % 3) + 3) % 3);
         int prio = (int) (hdr.v[4] & 1);
         switch (ty)
